@@ -14,9 +14,19 @@ func verifPoint(site string) { verifhook.Point(site) }
 
 func verifCount(site string) { verifhook.Count(site) }
 
-func verifActivity() { verifhook.Activity() }
+// verifActivity is called for every closure queued on a connection worker.
+func verifActivity() {
+	verifhook.ConnPending(1)
+	verifhook.Activity()
+}
 
-func verifBusy(d int64) { verifhook.Busy(d) }
+// verifBusy brackets the execution of one queued closure on a connection worker.
+func verifBusy(d int64) {
+	verifhook.Busy(d)
+	if d < 0 {
+		verifhook.ConnPending(-1)
+	}
+}
 
 func verifSub(site string, s *Subscription) {
 	if site == "populate" {
